@@ -272,7 +272,7 @@ def render(toks, rng):
 
 def check_statements(ck, gvh, oracle, tier, st):
     rng = ck.rng.fork()
-    n = 2500 if tier == "quick" else 50000
+    n = 1500 if tier == "quick" else 30000
     chunks = []
     for i in range(n):
         g = Gen(rng)
